@@ -122,6 +122,7 @@ def build(job):
             e = add(e, b)
         return e
 
+    npw = [0]
     rows = list(zip(p['rows'], rec['rows']))
     if p.get('arr'):
         # the two rows as one vector-valued constraint object (same sense, same set)
@@ -129,6 +130,19 @@ def build(job):
         assert r1['sense'] == r2['sense'] and r1['set'] == r2['set']
         rows = [(r1, [t1, t2])]
     for r, tm in rows:
+        if isinstance(tm, list) and var % 3 == 2 and r['sense'] in ('le', 'ge'):
+            # the same two rows spelled as ONE piecewise constraint with an added term (maxof / minof front end):
+            #   L1 >= 0 and L2 >= 0   <=>   minof(L1 - c, L2 - c) + c >= 0   <=>   c - maxof(c - L1, c - L2) >= 0
+            e1, e2 = expr(tm[0]), expr(tm[1])
+            if hasattr(e1, 'raffine') and hasattr(e2, 'raffine'):
+                cterm = x[0] + 0.5
+                if r['sense'] == 'ge':
+                    c = (rso.minof(e1 - cterm, e2 - cterm) + cterm >= 0) if var % 2 else (cterm - rso.maxof(cterm - e1, cterm - e2) >= 0)
+                else:
+                    c = (rso.maxof(e1 - cterm, e2 - cterm) + cterm <= 0) if var % 2 else (-cterm - rso.minof(-cterm - e1, -cterm - e2) <= 0)
+                m.st(attach(c, r['set']))
+                npw[0] += 1
+                continue
         e = expr2(tm) if isinstance(tm, list) else expr(tm)
         if r['sense'] == 'le':
             c = (e <= 0)
@@ -142,7 +156,7 @@ def build(job):
     if y is not None:
         for c in (y <= xb, y >= -xb):
             m.st(attach(c, 0) if isinstance(c, RoConstr) else c)
-    return m, dict(x=x, y=y, z=z, u=u, mask=mask)
+    return m, dict(x=x, y=y, z=z, u=u, mask=mask, piecewise_rows=npw[0])
 
 
 def solver_by_name(name):
@@ -312,6 +326,7 @@ def _replay(job, phase):
     out = dict(tid=job['tid'], solver=job['solver'], variant=job.get('variant', 0))
     phase[0] = 'build'
     m, h = build(job)
+    out['piecewise_rows'] = h.get('piecewise_rows', 0)
     phase[0] = 'solve'
     solver = solver_by_name(job['solver'])
     if solver is None:
